@@ -108,6 +108,8 @@ def r_visit(P, R):
                     'complete traversal path(s)')
     R.floor(f'R-VISIT traversals for {R.prop}', n,
             len(VISITORS.get(R.prop, [])))
+    if R.prop in ('C10', 'C03', 'C06', 'C18'):
+        collector_pruning(P, R)
     if R.prop == 'C10':
         support_levels(P, R)
         pick_first(P, R)
@@ -120,6 +122,7 @@ def r_visit(P, R):
         descendants_root(P, R)
     if R.prop == 'C18':
         sizes(P, R)
+        dot_layers(P, R)
 r_visit.NAME = 'R-VISIT'
 
 
@@ -551,6 +554,24 @@ def image_roles(P, R):
                                     isinstance(c2.func.value, ast.Name):
                                 tainted.add(c2.func.value.id)
         hit = [m for m in muts if au.names_loaded(m) & tainted]
+        # a restriction by the support of ONE operand, whichever it is:
+        # the quantified variable may occur in the other one only
+        one = []
+        for m in muts:
+            for c in au.calls_in(m, 'support'):
+                if c.args and isinstance(c.args[0], ast.Name) and \
+                        c.args[0].id in params[:2]:
+                    one.append((m, c.args[0].id))
+        if one and not hit:
+            m, opnd = one[0]
+            R.violation(
+                'R-ARGS', 'qvars-restricted', q, 'qvars',
+                f'`{au.short(m, 70)}` keeps only the quantified variables '
+                f'that occur in `{opnd}`: a quantified variable that '
+                'occurs in the other operand only is no longer '
+                'quantified and stays free in the result',
+                unit=f.unit.rel, line=m.lineno)
+            continue
         if hit:
             R.violation(
                 'R-ARGS', 'qvars-restricted', q, 'qvars',
@@ -1209,3 +1230,132 @@ def pick_yields(P, R):
                 'function with a non-empty care set it mentions none)',
                 unit=f.unit.rel, line=y.lineno)
     R.floor('R-VISIT yields of pick_iter', n, 1)
+
+
+def dot_layers(P, R):
+    """The number printed next to a layer of the DOT picture is the LEVEL
+    of that layer (the legend of the picture says so), and the layer of a
+    level is the subgraph filed under that level: both come from the
+    element of the loop over the levels, not from a counter."""
+    f = P.func('dd.bdd._to_dot')
+    fn = f.node
+    loops = [lp for lp in fn.body if isinstance(lp, ast.For) and any(
+        au.call_name(c) == 'add_node' and any(
+            k.arg == 'shape' for k in c.keywords)
+        for c in au.calls_in(lp))]
+    if not loops:
+        R.undecided('R-ROLE', f.qualname, 'layer labels',
+                    'the loop that creates the layers was not found')
+        return
+    lp = loops[0]
+    counter = None
+    elem = None
+    if isinstance(lp.iter, ast.Call) and au.call_name(
+            lp.iter) == 'enumerate' and isinstance(
+                lp.target, ast.Tuple) and len(lp.target.elts) == 2:
+        counter = lp.target.elts[0].id if isinstance(
+            lp.target.elts[0], ast.Name) else None
+        elem = lp.target.elts[1].id if isinstance(
+            lp.target.elts[1], ast.Name) else None
+    elif isinstance(lp.target, ast.Name):
+        elem = lp.target.id
+    labels = [s for s in au.walk_no_defs(lp) if isinstance(s, ast.Assign)
+              and isinstance(s.targets[0], ast.Name)
+              and isinstance(s.value, ast.Call)
+              and au.call_name(s.value) == 'str']
+    bad = [s for s in labels if counter and any(
+        au.is_name(x, counter) for x in ast.walk(s.value))]
+    keyed = [s for s in au.walk_no_defs(lp) if isinstance(s, ast.Assign)
+             and isinstance(s.targets[0], ast.Subscript)
+             and counter and au.is_name(s.targets[0].slice, counter)]
+    if bad or keyed:
+        s0 = (bad or keyed)[0]
+        R.violation(
+            'R-ROLE', 'layer-label-is-rank', f.qualname, 'label',
+            f'`{au.short(s0, 50)}` uses the position `{counter}` of the '
+            'layer among the layers that occur, not its level '
+            f'`{elem}`: when a declared variable has no node in the '
+            'picture, every layer below it is numbered one too low',
+            unit=f.unit.rel, line=s0.lineno)
+    elif labels and elem:
+        R.holds('R-ROLE', f.qualname,
+                f'layer labels are the levels themselves (`{elem}`)')
+    else:
+        R.undecided('R-ROLE', f.qualname, 'layer labels', 'unrecognised')
+
+
+def collector_pruning(P, R):
+    """A collector (`_support`, `_descendants`) may stop before it has
+    looked at a node for three reasons only: the node was visited, it is
+    the terminal, or the RESULT cannot grow any more (`len(<result>) ==
+    len(self.vars)`).  Any other test - the number of visited nodes, say -
+    prunes nodes whose part of the diagram was never looked at."""
+    for q in ('dd.bdd.BDD._support', 'dd.bdd.BDD._descendants'):
+        f = P.func(q, required=False)
+        if f is None:
+            continue
+        fn = f.node
+        cn = child_names(fn)
+        if cn is None:
+            continue
+        unpack = cn[0]
+        lvl = unpack.targets[0].elts[0]
+        # containers: the one that receives the node, the one that
+        # receives the level
+        visited = result = None
+        for c in au.calls_in(fn, 'add'):
+            recv = au.call_recv(c)
+            if not (recv and len(recv) == 1 and c.args):
+                continue
+            if isinstance(lvl, ast.Name) and au.is_name(c.args[0], lvl.id):
+                result = recv[0]
+            else:
+                visited = visited or recv[0]
+        if result is None:
+            result = visited
+        n = 0
+        for s in fn.body:
+            if s.lineno >= unpack.lineno:
+                break
+            if not (isinstance(s, ast.If) and s.body and isinstance(
+                    s.body[-1], ast.Return)):
+                continue
+            n += 1
+            t = s.test
+
+            def is_len_of(e, name):
+                return isinstance(e, ast.Call) and au.call_name(
+                    e) == 'len' and e.args and (
+                        au.is_name(e.args[0], name) or (
+                            au.chain(e.args[0]) or [None])[-1] == name)
+
+            def ok_test(t):
+                if isinstance(t, ast.BoolOp) and isinstance(t.op, ast.Or):
+                    return all(ok_test(x) for x in t.values)
+                if not (isinstance(t, ast.Compare) and len(t.ops) == 1):
+                    return False
+                a, b = t.left, t.comparators[0]
+                if isinstance(t.ops[0], ast.In) and isinstance(
+                        b, ast.Name) and b.id == visited:
+                    return True
+                if isinstance(t.ops[0], ast.Eq) and (
+                        au.const_int(b) == 1 or au.const_int(a) == 1):
+                    return True
+                if isinstance(t.ops[0], (ast.Eq, ast.GtE)) and \
+                        is_len_of(a, result) and is_len_of(b, 'vars'):
+                    return True
+                return False
+            ok = ok_test(t)
+            if ok:
+                R.holds('R-VISIT', q,
+                        f'pruning test `{au.short(t, 40)}`: visited / '
+                        'terminal / result saturated', nontrivial=False)
+            else:
+                R.violation(
+                    'R-VISIT', 'unsound-pruning', q, au.short(t, 30),
+                    f'`if {au.short(t, 50)}: return` stops the traversal '
+                    'for a reason other than "visited", "terminal" or '
+                    f'"the result `{result}` holds every variable": the '
+                    'part of the diagram below is never looked at and '
+                    'what it would have contributed is missing',
+                    unit=f.unit.rel, line=s.lineno)
